@@ -33,14 +33,15 @@ func (c *c02Ctx) Outputs() map[string]any          { return map[string]any{} }
 
 // the stub condition: the rule's id is in the table of the current request
 type c02TableMatcher struct {
-	id    int
-	table *map[int]bool
+	id  int
+	cur **c02gen.RepoLookup
 }
 
 var errC02NotInTable = errors.New("not in table")
 
-func (m *c02TableMatcher) Matches(_ *heimdall.Request, _, _ []string) error {
-	if (*m.table)[m.id] {
+func (m *c02TableMatcher) Matches(_ *heimdall.Request, keys, vals []string) error {
+	l := *m.cur
+	if c02gen.Accept(l.Table, l.Modes, l.Needle, m.id, keys, vals) {
 		return nil
 	}
 
@@ -61,14 +62,14 @@ func c02RunRepo(c c02gen.RepoCase) (o c02gen.RepoObs) {
 	}
 
 	repo := newRepository(factory)
-	table := map[int]bool{}
+	var cur *c02gen.RepoLookup
 
 	for _, s := range c.Sets {
 		src := fmt.Sprintf("src%d", s.Src)
 		rules := make([]rule.Rule, 0, len(s.Rules))
 
 		for _, ru := range s.Rules {
-			ri := &ruleImpl{id: fmt.Sprintf("%d", ru.ID), srcID: src, allowsBacktracking: ru.Bt}
+			ri := &ruleImpl{id: c.Name(ru.ID), srcID: src, allowsBacktracking: ru.Bt}
 
 			mm, err := createMethodMatcher(append([]string(nil), ru.Methods...))
 			if err != nil {
@@ -78,7 +79,7 @@ func c02RunRepo(c c02gen.RepoCase) (o c02gen.RepoObs) {
 			for _, p := range ru.Routes {
 				ri.routes = append(ri.routes, &routeImpl{
 					rule: ri, path: p,
-					matcher: compositeMatcher{mm, &c02TableMatcher{id: ru.ID, table: &table}},
+					matcher: compositeMatcher{mm, &c02TableMatcher{id: ru.ID, cur: &cur}},
 				})
 			}
 
@@ -88,14 +89,9 @@ func c02RunRepo(c c02gen.RepoCase) (o c02gen.RepoObs) {
 		o.Sets = append(o.Sets, repo.AddRuleSet(src, rules) == nil)
 	}
 
-	for _, l := range c.Lookups {
-		for k := range table {
-			delete(table, k)
-		}
-
-		for _, id := range l.Table {
-			table[id] = true
-		}
+	for i := range c.Lookups {
+		l := c.Lookups[i]
+		cur = &c.Lookups[i]
 
 		u := &heimdall.URL{}
 		u.Scheme = "http"
